@@ -301,12 +301,78 @@ pub fn check_sub(case: &SubCase, obs: &mut Obs) -> CaseResult {
     Ok(())
 }
 
+/// The process's local zone changes while it runs (TZ fixed-offset zones with their offsets in seconds).
+#[derive(Serialize, Deserialize, Debug, Clone)]
+pub struct TzCase {
+    pub zones: Vec<(String, i32)>,
+}
+
+const FIXED_ZONES: [(&str, i32); 7] = [("JST-9", 32_400), ("EST5", -18_000), ("<+0330>-3:30", 12_600), ("UTC0", 0), ("<-1130>11:30", -41_400), ("<+1245>-12:45", 45_900), ("CET-1", 3_600)];
+
+pub fn tz_strategy() -> impl Strategy<Value = TzCase> {
+    prop::collection::vec(prop::sample::select(FIXED_ZONES.to_vec()), 2..=3).prop_map(|z| TzCase { zones: z.into_iter().map(|(n, o)| (n.to_string(), o)).collect() })
+}
+
+/// "local" is the zone the process is in when the record is encoded, not the one it was in earlier.
+pub fn check_tz_change(case: &TzCase, obs: &mut Obs) -> CaseResult {
+    use chrono::{NaiveDateTime, Utc};
+    let pinned = ("<+0545>-5:45".to_string(), 20_700);
+    let enc = PatternEncoder::new("{d(%z|%Y-%m-%dT%H:%M:%S)}|{d(%z)(local)}");
+    let rec = Rec { level: 2, target: "t".into(), msg: vec!["m".into()], module: None, file: None, line: None, mdc: vec![] };
+    let mut result = Ok(());
+    let mut seq: Vec<&(String, i32)> = vec![&pinned];
+    seq.extend(case.zones.iter());
+    for (i, (zone, off)) in seq.iter().enumerate() {
+        if i > 0 {
+            std::env::set_var("TZ", zone);
+            // chrono looks at TZ again at most once per second
+            std::thread::sleep(std::time::Duration::from_millis(1150));
+        }
+        let t0 = Utc::now();
+        let out = match catch(|| encode_with(&enc, &rec, vec![])) {
+            Ok((w, Ok(()))) => String::from_utf8_lossy(&w.bytes()).to_string(),
+            Ok((_, Err(e))) => {
+                result = fail("C09:encode-error", format!("encode returned Err: {}", e));
+                break;
+            }
+            Err(p) => {
+                result = fail("C09:panic:encode", format!("encode panicked after a zone change: {}", p));
+                break;
+            }
+        };
+        let t1 = Utc::now();
+        obs.sub_evals += 1;
+        let sign = if *off < 0 { '-' } else { '+' };
+        let want_z = format!("{}{:02}{:02}", sign, off.abs() / 3600, off.abs() % 3600 / 60);
+        let parts: Vec<&str> = out.split('|').collect();
+        let ok = parts.len() == 3 && parts[0] == want_z && parts[2] == want_z && NaiveDateTime::parse_from_str(parts[1], "%Y-%m-%dT%H:%M:%S").map_or(false, |n| {
+            let lo = (t0 + chrono::Duration::seconds(*off as i64 - 1)).naive_utc();
+            let hi = (t1 + chrono::Duration::seconds(*off as i64)).naive_utc();
+            n >= lo && n <= hi
+        });
+        if !ok {
+            result = fail("C09:date-zone-after-change", format!("zone #{} of the process lifetime is TZ={:?} (UTC{}): the local date rendered as {:?} at {} UTC", i, zone, want_z, out, t0));
+            break;
+        }
+    }
+    std::env::set_var("TZ", &pinned.0);
+    std::thread::sleep(std::time::Duration::from_millis(1150));
+    obs.nontrivial = true;
+    obs.class(format!("zone-changes={}", case.zones.len()));
+    result
+}
+
 pub fn run(run: &Run) {
     run.run_replays::<Case>("meaning", &check);
     run.run_replays::<SubCase>("date-subsec", &check_sub);
     let n = run.tier.pick(6_000, 400_000);
     run.search("meaning", n, strategy(0.35), &check);
     run.search("date-subsec", run.tier.pick(500, 20_000), sub_strategy(), &check_sub);
+    // last, because it moves the process's zone about (and back): one worker
+    run.run_replays::<TzCase>("tz-change", &check_tz_change);
+    if run.worker.0 == 0 {
+        run.search("tz-change", run.tier.pick(1, 8), tz_strategy(), &check_tz_change);
+    }
     run.note(format!("profile {} (debug_assertions={})", run.profile, cfg!(debug_assertions)));
 }
 
@@ -314,6 +380,7 @@ pub fn replay(part: &str, case: serde_json::Value) -> Option<CaseResult> {
     match part {
         "meaning" => Some(check(&serde_json::from_value(case).ok()?, &mut Obs::default())),
         "date-subsec" => Some(check_sub(&serde_json::from_value(case).ok()?, &mut Obs::default())),
+        "tz-change" => Some(check_tz_change(&serde_json::from_value(case).ok()?, &mut Obs::default())),
         _ => None,
     }
 }
@@ -321,7 +388,7 @@ pub fn replay(part: &str, case: serde_json::Value) -> Option<CaseResult> {
 pub fn meta() -> EvidenceMeta {
     EvidenceMeta {
         level: "exploration",
-        rule: "cases = patterns generated as an AST over the documented grammar (all formatters and both aliases, literals with doubled/backslash escapes, MDC and date arguments, nesting <=4, optional width specs) printed to a string, x 1-2 generated records (Unicode text, absent optional fields, MDC maps, message delivered in 1-6 pieces), encoded into a capture sink with scripted short writes, on the main or a named thread, under both build profiles; oracle = render(AST, record) computed from the AST (never from re-parsing), equality of whole output, style events balanced, alias-flipped pattern renders identically; sub-second dates: cut out between literal prefix/suffix, parsed back, must lie inside the encode bracket with the requested zone's offset; non-trivial = AST depth>=2 or escape adjacent to a formatter or absent optional field under a spec or non-ASCII record text or MDC/date argument with escapes; distinct = FNV hash of the case".into(),
+        rule: "cases = patterns generated as an AST over the documented grammar (all formatters and both aliases, literals with doubled/backslash escapes, MDC and date arguments, nesting <=4, optional width specs) printed to a string, x 1-2 generated records (Unicode text, absent optional fields, MDC maps, message delivered in 1-6 pieces), encoded into a capture sink with scripted short writes, on the main or a named thread, under both build profiles; oracle = render(AST, record) computed from the AST (never from re-parsing), equality of whole output, style events balanced, alias-flipped pattern renders identically; sub-second dates: cut out between literal prefix/suffix, parsed back, must lie inside the encode bracket with the requested zone's offset; zone changes: TZ is moved through 2-3 fixed-offset zones while the process runs (1.15 s apart, chrono's own refresh interval) and every local date must carry the offset of the zone in force when it is encoded; non-trivial = AST depth>=2 or escape adjacent to a formatter or absent optional field under a spec or non-ASCII record text or MDC/date argument with escapes; distinct = FNV hash of the case".into(),
         assumptions: vec![
             "date reference formatting uses chrono itself: checked is that format and zone reach chrono unaltered and the result lands in place".into(),
             "unnamed threads and highlight colours are not asserted (documentation and code disagree; statement requires only unchanged text)".into(),
